@@ -91,7 +91,8 @@ def wSig (w : Writer) : String :=
 
 /-- One op on the hand-written model and, next to it, on the model *generated from the Rust source*
 (`TieWriter.genRun`, theorem `TieWriter.op_tied`): `false` = they differ in result or state. -/
-def genAgrees (w : Writer) (op : Writer.Op) (res : Option Bool) (w' : Writer) : Bool :=
+def genAgrees (gen : Bool) (w : Writer) (op : Writer.Op) (res : Option Bool) (w' : Writer) : Bool :=
+  if !gen then true else      -- `nogen=1`: the hand-written model alone (see `EngReader.runROp`)
   let (gres, gw') := TieWriter.genRun w op
   gres == res && wSig gw' == wSig w'
 
@@ -104,7 +105,7 @@ def showWRes (op : Writer.Op) : Option Bool → String
 
 /-- Run a repeated write-like op: results as runs (most recent first), final writer, number of
 iterations that reached the sink, largest buffer length seen. -/
-def runRepeat (inner : String) : Nat → Nat → Writer → List (String × Nat) → Nat → Nat →
+def runRepeat (gen : Bool) (inner : String) : Nat → Nat → Writer → List (String × Nat) → Nat → Nat →
     Writer × List (String × Nat) × Nat × Nat
   | 0, _, w, runs, cold, maxbuf => (w, runs, cold, maxbuf)
   | n + 1, k, w, runs, cold, maxbuf =>
@@ -112,15 +113,16 @@ def runRepeat (inner : String) : Nat → Nat → Writer → List (String × Nat)
     | none => (w, runs, cold, maxbuf)
     | some op =>
       let (res, w') := op.run w
-      let r := showWRes op res ++ (if genAgrees w op res w' then "" else "!GENERATED-MODEL-DIFFERS")
+      let r := showWRes op res ++ (if genAgrees gen w op res w' then "" else "!GENERATED-MODEL-DIFFERS")
       let runs := match runs with
         | (last, c) :: rest => if last == r then (last, c + 1) :: rest else (r, 1) :: runs
         | [] => [(r, 1)]
       let cold := if w'.sink.log.length != w.sink.log.length then cold + 1 else cold
-      runRepeat inner n (k + 1) w' runs cold (max maxbuf w'.buf.length)
+      runRepeat gen inner n (k + 1) w' runs cold (max maxbuf w'.buf.length)
 
 def runWriterCase (line : String) : String × String :=
   let fs := fields line
+  let gen := field fs "nogen" != "1"
   let w0 : Writer := { sink := { sched := parseWSched (field fs "s") } }
   let ops := if field fs "o" == "-" then [] else (field fs "o").splitOn ","
   let (outs, w, _, cold, maxbuf) := ops.foldl (fun (acc : List String × Writer × Bool × Nat × Nat) t =>
@@ -128,7 +130,7 @@ def runWriterCase (line : String) : String × String :=
       if dropped then acc else
       match parseRepeat t with
       | some (count, inner) =>
-        let (w', runs, cold, maxbuf) := runRepeat inner count 0 w [] cold maxbuf
+        let (w', runs, cold, maxbuf) := runRepeat gen inner count 0 w [] cold maxbuf
         let txt := if runs.isEmpty then "-" else "/".intercalate (runs.reverse.map fun (r, c) => s!"{r}*{c}")
         (outs ++ [txt], w', dropped, cold, maxbuf)
       | none =>
@@ -138,7 +140,7 @@ def runWriterCase (line : String) : String × String :=
         let (res, w') := op.run w
         let isDrop := match op with | .drop => true | _ => false
         let wentCold := w'.sink.log.length != w.sink.log.length
-        let mark := if genAgrees w op res w' then "" else "!GENERATED-MODEL-DIFFERS"
+        let mark := if genAgrees gen w op res w' then "" else "!GENERATED-MODEL-DIFFERS"
         (outs ++ [showWRes op res ++ mark], w', isDrop, if wentCold then cold + 1 else cold, max maxbuf w'.buf.length))
     ([], w0, false, 0, 0)
   let log := ",".intercalate (w.sink.log.map fun (a, b) => s!"{a}>{b}")
